@@ -283,9 +283,10 @@ impl DependencyProvider for SimProvider {
         version_set: VersionSetId,
         inverse: bool,
     ) -> Vec<SolvableId> {
-        let (mut guard, req) =
-            self.begin(Kind::Filter, version_set.0, ReqKey::filter(version_set.0, inverse));
-        if self.core.yields(Kind::Filter) {
+        let key = ReqKey::filter(version_set.0, inverse);
+        let suspend = self.core.yields_req(Kind::Filter, &key);
+        let (mut guard, req) = self.begin(Kind::Filter, version_set.0, key);
+        if suspend {
             req.await;
         }
         let w = &self.core.world;
@@ -296,8 +297,10 @@ impl DependencyProvider for SimProvider {
     }
 
     async fn get_candidates(&self, name: NameId) -> Option<Candidates> {
-        let (mut guard, req) = self.begin(Kind::Cand, name.0, ReqKey::cand(name.0));
-        if self.core.yields(Kind::Cand) {
+        let key = ReqKey::cand(name.0);
+        let suspend = self.core.yields_req(Kind::Cand, &key);
+        let (mut guard, req) = self.begin(Kind::Cand, name.0, key);
+        if suspend {
             req.await;
         }
         let out = self.candidates_answer(name.0);
@@ -307,7 +310,9 @@ impl DependencyProvider for SimProvider {
 
     async fn sort_candidates(&self, solver: &SolverCache<Self>, solvables: &mut [SolvableId]) {
         let ids: Vec<u32> = solvables.iter().map(|s| s.0).collect();
-        let (mut guard, req) = self.begin(Kind::Sort, 0, ReqKey::sort(&ids));
+        let key = ReqKey::sort(&ids);
+        let suspend = self.core.yields_req(Kind::Sort, &key);
+        let (mut guard, req) = self.begin(Kind::Sort, 0, key);
         if self.core.reentrant_sort {
             InSort {
                 core: &self.core,
@@ -315,7 +320,7 @@ impl DependencyProvider for SimProvider {
             }
             .await;
         }
-        if self.core.yields(Kind::Sort) {
+        if suspend {
             req.await;
         }
         // Like a real provider, the ranking policy is looked up once per call, for the package of the slice it is given
@@ -330,8 +335,10 @@ impl DependencyProvider for SimProvider {
     }
 
     async fn get_dependencies(&self, solvable: SolvableId) -> Dependencies {
-        let (mut guard, req) = self.begin(Kind::Deps, solvable.0, ReqKey::deps(solvable.0));
-        if self.core.yields(Kind::Deps) {
+        let key = ReqKey::deps(solvable.0);
+        let suspend = self.core.yields_req(Kind::Deps, &key);
+        let (mut guard, req) = self.begin(Kind::Deps, solvable.0, key);
+        if suspend {
             req.await;
         }
         let out = self.dependencies_answer(solvable.0);
